@@ -226,6 +226,7 @@ def validate_traces(trace_module, files, *, cfg=None, parallel=8, timeout=1800, 
     (-workers 1).  Returns dict(events, runs, viol=[{file, run, rule, line, p}], hits={rule: n}, finals)."""
     res = {"events": 0, "runs": 0, "viol": [], "hits": {}, "files": len(files), "wall": 0.0, "stats": {}}
     t0 = time.time()
+    files = _chunk_big_traces(files)
 
     def one(i_f):
         i, f = i_f
@@ -258,6 +259,35 @@ def validate_traces(trace_module, files, *, cfg=None, parallel=8, timeout=1800, 
                 res["viol"].append({"file": f, "run": rv.get("run"), "line": v[0], "rule": v[1], "p": v[2:]})
     res["wall"] = time.time() - t0
     return res
+
+
+def _chunk_big_traces(files, limit=120 * 1024 * 1024):
+    """TLC deserialises a whole trace file at once: files above `limit` are cut at run boundaries (reset events)
+    into parts of at most about `limit` bytes; a violation then names the part, which holds its run completely."""
+    out = []
+    for f in files:
+        if os.path.getsize(f) <= limit:
+            out.append(f)
+            continue
+        part, size, n = None, 0, 0
+        import glob as _g
+        for stale in _g.glob(f + ".part*"):
+            os.remove(stale)
+        with open(f) as src:
+            for line in src:
+                if part is None or (size > limit and '"ev":"reset"' in line):
+                    if part:
+                        part.close()
+                    pf = "%s.part%d" % (f, n)
+                    n += 1
+                    part = open(pf, "w")
+                    out.append(pf)
+                    size = 0
+                part.write(line)
+                size += len(line)
+        if part:
+            part.close()
+    return out
 
 
 # ------------------------------------------------------------------------------------------------
